@@ -653,3 +653,16 @@ def target_container_init():
 
 def targets():      # noqa: F811
     return _targets_before_container_init() + [target_container_init()]
+
+
+_targets_before_roundtrip = targets
+
+
+def targets():      # noqa: F811
+    """+ shared with C03: the `to_string + parse` step of the state machine -- `Element.to_string` / `Container.to_string` write
+    every value, limit, fixed flag and the label; `Parser.element` applies what it read through the setters above (every fixed flag,
+    True and False; limits before values in the order that cannot be refused), and the parser's limit checks refuse a limit only
+    when it is given and STRICTLY beyond the value, so a value sitting on its limit (after clamping) survives the round trip"""
+    from . import c03
+    shared = [t for t in c03.targets() if any(k in t[0] for k in ("Parser.element", "Parser limit checks", "Element.to_string", "Container.to_string"))]
+    return _targets_before_roundtrip() + shared
